@@ -38,6 +38,11 @@ def transforms(pos, width, extreme):
     T = []
     for lab in ("intrev", "str", "strrev"):
         T.append(("relabel-" + lab, {"labels": lab}))
+    # integer labels rotated, so that the label 0 (falsy in Python) lands on another node, and a string relabelling that
+    # uses the empty string for one node
+    T.append(("relabel-rotate+2", {"rot": 2}))
+    T.append(("relabel-rotate+1", {"rot": 1}))
+    T.append(("relabel-str-with-empty", {"labels": "strempty"}))
     T.append(("relist-reversed", {"relist": True}))
     T.append(("axis-swap", {"swap": True}))
     for k in (-8, -3, 3, 10, 20):
@@ -66,6 +71,9 @@ def cases(tier):
 def apply_tf(graph, trace, cfg, tf):
     lab = tf.get("labels")
     ren = (lambda k: al.label(k, lab)) if lab else (lambda k: k)
+    if tf.get("rot"):
+        n_ = len(graph)
+        ren = lambda k: (k + tf["rot"]) % n_   # noqa: E731
     s = tf.get("scale", 1.0)
     o = tf.get("shift", 0.0)
 
@@ -99,7 +107,7 @@ def trace_list(case, graph, pos):
         P = [v[0] for v in graph.values()]
         near = [(p[0] + 0.13, p[1] - 0.11) if pos == "GENERIC" else (p[0] + 0.25, p[1] - 0.125) for p in P]
         n = len(P) - 1
-        return [[near[min(i, n)] for i in t] for t in ps.span_idx(n)]
+        return ms.axis_traces(graph) + [[near[min(i, n)] for i in t] for t in ps.span_idx(n)]
     obs = [al.OBS[pos][0], al.OBS[pos][2], al.OBS[pos][3]]
     out = [list(t) for T in (1, 2) for t in itertools.product(obs, repeat=T)]
     out += [[obs[1]] + list(t) for t in itertools.product(obs, repeat=2)]
